@@ -197,3 +197,11 @@ Example ex_second_trigger_is_noop :
   let p := exec_op (pr (init ex_graph)) (OpTrigger 0 (OVal 1)) in
   e_val (get_ev p 0%nat) = Some (OVal 1) /\ exec_op p (OpTrigger 0 (OFail 2)) = p.
 Proof. vm_compute. split; reflexivity. Qed.
+
+(** (A) the tie to /repo's current source: every function this property's models were transcribed from has, in the
+    tree this run is checking, the normalised source it had when the models were validated (hashes regenerated from
+    /repo into gen/Generated.v on every run; pins in gen/SourcePins.v).  A change to one of them invalidates the
+    transcription until it is re-validated. *)
+From UsimGen Require SourcePins Pin_C18.
+Theorem C18_modelled_source_unchanged : forallb SourcePins.pin_ok Pin_C18.pins = true.
+Proof. exact Pin_C18.src_unchanged. Qed.
